@@ -148,7 +148,7 @@ def _post_pdf(call):
     if c is None or call.exc is not None:
         return
     spec = c.case.get("spec")
-    if spec is None or type(call.self).__name__ != "GlobalHierarchicalModel":
+    if spec is None or type(call.self).__name__ != "GlobalHierarchicalModel" or getattr(call.self, "_vmon_dimspecs_unknown", False):
         return
     if c.counts["c06.pdf-factorises"] >= 3000:
         c.count("c06.pdf-calls-beyond-budget")  # inner evaluations of a quadrature: the first 3000 per case are compared
@@ -242,6 +242,10 @@ def gen_cases(tier, seed):
             cases.append({"op": "cdf", "spec": spec_for(st), "sub": int(rng.integers(1 << 31)), "q": [float(rng.uniform(0.3, 0.9)) for _ in range(3)], "cost": 200})
         for st in s2:
             cases.append({"op": "total-mass", "spec": spec_for(st), "sub": int(rng.integers(1 << 31)), "cost": 30})
+    # FITTED models (state left by fit()), evaluated inside and far outside the fitted range of the conditioning variable
+    frng = np.random.default_rng([seed, 6, 11])
+    for k in range(3 if tier == "quick" else 40):
+        cases.append({"op": "fitted-factorisation", "spec": spec_for([None, 0]), "sub": int(frng.integers(1 << 31)), "n": int(frng.choice([2000, 6000])), "cost": 3})
     # units as an input class: the same law with variables measured in other units (centimetres, kilometres per hour,
     # millimetres): values above 100 and below 1e-2 - an absolute constant in the code shows up here
     urng = np.random.default_rng([seed, 6, 77])
@@ -467,6 +471,45 @@ def run_case(case, ctx):
                     ok, wit = False, {"p": float(pi), "x": float(xi), "reference_cdf_of_the_current_parameters_at_x": Fx, "first_call_returned": first.tolist()}
             ctx.check("c06.marginal-icdf", ok, "marginal_icdf after the model's parameters changed is not a quantile of the current model (stale Monte-Carlo state)", witness=wit, dim=j, **info)
             ctx.sample = {"op": op, **info, "p": p.tolist(), "before": first.tolist(), "after": got.tolist()}
+        elif op == "fitted-factorisation":
+            from virocon import DependenceFunction, GlobalHierarchicalModel, LogNormalDistribution, WeibullDistribution, WidthOfIntervalSlicer
+
+            n = case["n"]
+            hs = rng.weibull(1.5, n) * 2.2 + 0.05
+            tz = np.exp(0.9 + 0.55 * hs**0.45 + (0.06 + 0.2 * np.exp(-0.3 * hs)) * rng.standard_normal(n))
+
+            def _p3(x, a=1.0, b=0.5, c=0.5):
+                return a + b * x**c
+
+            def _e3(x, a=0.1, b=0.3, c=-0.2):
+                return a + b * np.exp(c * x)
+
+            b3 = [(0, None), (0, None), (None, None)]
+            fm = GlobalHierarchicalModel([
+                {"distribution": WeibullDistribution(f_gamma=0), "intervals": WidthOfIntervalSlicer(0.5, min_n_points=30)},
+                {"distribution": LogNormalDistribution(), "conditional_on": 0, "parameters": {"mu": DependenceFunction(_p3, b3), "sigma": DependenceFunction(_e3, b3)}},
+            ])
+            fm._vmon_dimspecs_unknown = True  # (fitted parameters: no spec for the factorisation monitor; judged below)
+            fm.fit(np.c_[hs, tz], [{"method": "mle"}, {"method": "mle"}])
+            cd = fm.distributions[1]
+            x0 = np.r_[np.quantile(hs, [0.1, 0.5, 0.9]), hs.max() * np.array([1.05, 1.5, 2.5]), hs.min() * np.array([0.5, 0.1])]
+            mu, sg = np.asarray(cd.conditional_parameters["mu"](x0), float), np.asarray(cd.conditional_parameters["sigma"](x0), float)
+            x1 = np.exp(mu + sg * rng.standard_normal(x0.size))
+            P = np.c_[x0, x1]
+            got = np.asarray(fm.pdf(P), float)
+            p0f = fm.distributions[0].parameters
+            want = np.asarray(R.pdf("weibull", x0, alpha=p0f["alpha"], beta=p0f["beta"], gamma=p0f["gamma"]), float) * np.asarray(R.pdf("lognormal", x1, mu=mu, sigma=sg), float)
+            okf = np.abs(got - want) <= 1e-9 * np.abs(want) + 1e-300
+            jf = int(np.argmin(okf))
+            ctx.check("c06.fitted-factorisation", bool(np.all(okf)), "fitted model: the joint pdf is not the product of the marginal density and the conditional density at the fitted dependence values (inside and outside the fitted range)", point=P[jf].tolist(), got=float(got[jf]), want=float(want[jf]), fitted_range=[float(hs.min()), float(hs.max())])
+            # the conditional pdf is the derivative of the conditional cdf at the same conditioning value
+            h = 1e-5 * x1
+            num = (np.asarray(cd.cdf(x1 + h, x0), float) - np.asarray(cd.cdf(x1 - h, x0), float)) / (2 * h)
+            an = np.asarray(cd.pdf(x1, x0), float)
+            okd = np.abs(num - an) <= 1e-5 * np.abs(an) + 1e-12
+            ctx.check("c06.fitted-factorisation", bool(np.all(okd)), "fitted model: the conditional pdf is not the derivative of the conditional cdf at the same conditioning value", given=float(x0[int(np.argmin(okd))]), numeric=float(num[int(np.argmin(okd))]), pdf=float(an[int(np.argmin(okd))]))
+            ctx.nontrivial = True
+            ctx.sample = {"op": op, "n": n, "fitted_marginal": {k_: float(v_) for k_, v_ in p0f.items()}}
         elif op == "total-mass":
             lims = [[0, float(ref.dim_range(i, eps=1e-12)[1])] for i in range(d)]
             val, err = integrate.nquad(lambda *a: float(model.pdf(np.array(a).reshape(1, d))[0]), lims, opts={"epsabs": 1e-8, "epsrel": 1e-7, "limit": 60})
